@@ -1038,7 +1038,20 @@ fn lex_source_into_buffer<'source: 'tokens, 'tokens: 'buffer, 'buffer>(
 					Ok(BaseToken::StringLiteral)
 				}
 			}
-			_ => Err(LexingError::UnexpectedCharacter),
+			_ =>
+			{
+				// A multi-byte character is one unexpected character;
+				// its location must not end inside the character.
+				if x >= 0xC0
+				{
+					while let Some((j, _)) =
+						iter.next_if(|&(_, y)| (0x80..0xC0).contains(&y))
+					{
+						location.end = (j as u32) + 1;
+					}
+				}
+				Err(LexingError::UnexpectedCharacter)
+			}
 		};
 		match result
 		{
